@@ -362,14 +362,21 @@ def specs(tier: str, seed: int, tlc_cases: list | None = None):
     k = 300 if thorough else 60
     for q in (progs if len(progs) <= k else rng.sample(progs, k)):
         out.append({"src": "prog", "prog": q, "seed": rng.randrange(2**30)})
+    ncombo = 0
     for fac in ("coupling_flow", "masked_autoregressive_flow", "block_neural_autoregressive_flow", "planar_flow", "triangular_spline_flow"):
         for invert in (True, False):
             for cond in (None, 2):
                 trs = ("affine", "spline") if fac in ("coupling_flow", "masked_autoregressive_flow") else ("default",)
                 for tr in trs:
-                    for dim in ((1, 2, 3) if thorough else (2,)):
+                    # quick: one dimension per combination, cycling deterministically so that every factory meets a
+                    # single coordinate, an even and an odd size (Flip vs Permute between layers) and a larger one
+                    ncombo += 1
+                    dims = (1, 2, 3, 5, 9) if thorough else ((2, 3, 1, 6)[ncombo % 4],)
+                    for dim in dims:
                         if fac == "coupling_flow" and dim == 1:
-                            continue
+                            dim = 4
+                        if fac == "block_neural_autoregressive_flow" and dim > 5:
+                            dim = 5          # the bisection inverter: cost grows with the dimension
                         out.append({"src": "flow", "factory": fac, "invert": invert, "cond": cond, "transformer": tr,
                                     "dim": dim, "seed": rng.randrange(2**30)})
     return out
